@@ -21,11 +21,11 @@ def main():
     fn = props.CHECKS.get(pid)
     if fn is None:
         print(f"unknown property {pid}"); return 2
+    run = F.Run(pid, tier, seed)
     try:
         pr = F.prove(pid)
     except Exception:
         traceback.print_exc(); return 2
-    run = F.Run(pid, tier, seed)
     try:
         if pr["driver_ok"]:
             fn(run)
